@@ -85,6 +85,9 @@ func TestStringFunctionBounds(t *testing.T) {
 			if len(strings.Split(s, sep)) < 1 {
 				t.Fatal("Split len")
 			}
+			if strings.Contains(s, sep) && len(strings.Split(s, sep)) < 2 {
+				t.Fatal("Split of a string containing the separator has fewer than two parts")
+			}
 			n := r.Intn(4) + 1
 			if p := strings.SplitN(s, sep, n); len(p) > n || len(p) < 1 {
 				t.Fatal("SplitN len")
